@@ -106,6 +106,21 @@ def run(ctx):
         scn = {"machines": {"m": {"asl": asl}}, "funcs": dict(F.FUNCS), "starts": [{"machine": "m", "name": "e0", "input": {"items": F.items(n, depth=0)}}]}
         _sched.run_dfs(ctx, scn, dict(family="dfs-%s-%d-%s" % (kind, n, "end" if end else "next"), kind=kind), judge, ctx.pick(150, 4000))
 
+    # fan-outs with nothing to launch, as the last state of a branch: the event that entered them must still be acknowledged at the join
+    emptymap = {"Type": "Map", "ItemsPath": "$.none", "ItemProcessor": F.chain([("I1", F.T("echo"))])}
+    emptypar = {"Type": "Parallel", "Branches": []}
+    for j, (label, inner) in enumerate([("empty-map-ends-branch", emptymap), ("empty-parallel-ends-branch", emptypar)]):
+        for outer in ("Parallel", "Map"):
+            if not ctx.mine(j):
+                continue
+            br = F.chain([("B1", F.T("echo")), ("B2", dict(inner))])
+            st = {"Type": "Parallel", "Branches": [br, F.chain([("C1", F.T("echo"))])]} if outer == "Parallel" else \
+                {"Type": "Map", "ItemsPath": "$.items", "ItemProcessor": br}
+            asl = F.chain([("Fan", st), ("After", F.T("echo"))])
+            scn = {"machines": {"m": {"asl": asl}}, "funcs": dict(F.FUNCS), "starts": [{"machine": "m", "name": "e0", "input": {"none": [], "items": [dict(it, none=[]) for it in F.items(2, depth=0)]}}]}
+            ctx.count("family:" + label)
+            _sched.run_schedules(ctx, scn, dict(family=label, kind=outer), judge, n_random, ["c03-empty", j, outer])
+
 
 def witness_scenario():
     names = F.Names()
